@@ -1878,7 +1878,7 @@ def wtgrids(
         raise ValueError(
             f"`form` produces a {length} length string. It must be 8 or 16.\n"
         )
-    if ps == seid == "":
+    if isinstance(ps, str) and isinstance(seid, str) and ps == seid == "":
         if len(teststr) > 8:
             string = (
                 "GRID*   {:16d}{:16d}" + form * 2 + "\n*       " + form + "{:16d}\n"
